@@ -12,6 +12,7 @@ KF_FILE = os.path.join(HERE, "known_findings.json")
 KANI_FLAGS = ["--no-default-features", "-Z", "stubbing", "-Z", "unstable-options"]
 
 HEAVY_JOBS = int(os.environ.get("VERIF_HEAVY_JOBS", "3"))
+HEAVY_CHUNK = int(os.environ.get("VERIF_HEAVY_CHUNK", "6"))
 QUICK_TIMEOUT = int(os.environ.get("VERIF_QUICK_HARNESS_TIMEOUT", "720"))
 THOROUGH_TIMEOUT = int(os.environ.get("VERIF_THOROUGH_HARNESS_TIMEOUT", "2700"))
 
@@ -445,7 +446,7 @@ def run_property(prop, tier, only=None, keep=False, seed=0):
         # deterministic order; the seed only permutes scheduling
         hs.sort(key=lambda h: (hash((h.name, seed)) if seed else 0, h.name))
         groups = []
-        total_jobs = int(os.environ.get("VERIF_JOBS", "13"))
+        total_jobs = int(os.environ.get("VERIF_JOBS", "13" if tier == "quick" else "10"))
         light = {k: [h for h in hs if h.kind == k and not h.heavy] for k in kinds}
         heavy = {k: [h for h in hs if h.kind == k and h.heavy] for k in kinds}
         n_groups = sum(1 for k in kinds if light[k]) + sum(1 for k in kinds if heavy[k])
@@ -464,11 +465,31 @@ def run_property(prop, tier, only=None, keep=False, seed=0):
             if heavy[k]:
                 share = max(1, round(heavy_jobs * len(heavy[k]) / max(1, n_heavy)))
                 groups.append(GroupRun(k, heavy[k], scratch, min(len(heavy[k]), share), per_to, mem_kb, tag="-heavy"))
+        # Heavy groups are split into chunks of at most HEAVY_CHUNK harnesses per cargo-kani process (the
+        # kani-driver process grows to 10 GB when it collects the output of many coroutine harnesses and
+        # was killed by the OOM killer, losing the rest of its group); the chunks of a chain run one after
+        # the other while the light groups run beside them.
+        chains = []
         for g in groups:
-            g.start()
+            if g.target.endswith("-heavy") and len(g.harnesses) > HEAVY_CHUNK:
+                parts = [g.harnesses[i:i + HEAVY_CHUNK] for i in range(0, len(g.harnesses), HEAVY_CHUNK)]
+                chains.append([GroupRun(g.kind, part, scratch, min(g.jobs, len(part)), per_to, mem_kb, tag="-heavy%d" % n)
+                               for n, part in enumerate(parts)])
+            else:
+                chains.append([g])
         budget = per_to * 3 + 600
-        for g in groups:
-            g.wait(time.time() + budget)
+
+        def run_chain(chain):
+            for gr in chain:
+                gr.start()
+                gr.wait(time.time() + budget)
+
+        threads = [threading.Thread(target=run_chain, args=(c,)) for c in chains]
+        for th in threads:
+            th.start()
+        for th in threads:
+            th.join()
+        groups = [gr for c in chains for gr in c]
         for g in groups:
             build_failed = "error: could not compile" in g.output or "error[E" in g.output
             for h in g.harnesses:
